@@ -93,6 +93,34 @@ CHECKS = [
            'names, exact flag sets, None iff nothing differs, added(old->new) = removed(new->old)).',
       note='Trusted base: the ~80-line reference comparison in checks/c17.py. SUB_INTERFACES is three-valued where only a port\'s or a '
            'SmartNIC service\'s own properties differ. Topology-level diff (Neo4j only) is out of scope of the property\'s anchors.'),
+ dict(property_id='C07', engine='E1-bfs', level='model_checking',
+      technique='model checking: explicit-state BFS over topology-building call histories on the real API, invariants = published graph rules transliterated + containment + views',
+      text='Breadth-first search over all histories of the documented building calls (add/remove node, switch, facility, component, storage, '
+           'service with 0-2 interfaces, port-mirror service, connect/disconnect, peer/unpeer, add/remove sub-interface, rename, set/unset '
+           'property, duplicate-name/id attempts; substrate flavour with static ids, patch and three-ended links) from an empty model '
+           '(depth 4 quick / 5 thorough) and from rich roots (depth 2 / 2-3). In every reached state the published rules of '
+           'graph_validation_rules.json (vocabularies parsed from the file itself), the ownership structure, name uniqueness per scope and '
+           'equality of every read-only view with the class listings are evaluated on the raw stored graph; views are probed for write-through.',
+      note='States violating a structural rule are reported and not expanded further. Alphabet: 2 nodes, 3-5 component models, 6 service '
+           'types, 2 sub-interfaces; see fimmc/topo.py. One open finding (rename bypasses name uniqueness).'),
+ dict(property_id='C08', engine='E1-bfs', level='model_checking',
+      technique='model checking: explicit-state BFS; every applicable removal in every reached state compared with a reference prediction of the full post-state',
+      text='Same driver and roots as C07. In every reached state every applicable removal / disconnect / un-peer / sub-interface removal '
+           '(11 kinds) is executed from a restored snapshot and the full post-state (all nodes, properties, edges, keyed by real ids) is '
+           'compared with pre-state minus the owned closure computed by a reference model from the raw pre-state graph; the handles the '
+           'operation was performed through must list the same interfaces as freshly looked-up ones; un-peering services that do not '
+           'peer must raise and change nothing.',
+      note='Trusted base: the ~90-line closure computation in fimmc/topo.py (c08_targets). Ambiguous lookups (duplicate names) are '
+           'skipped as unspecified.'),
+ dict(property_id='C09', engine='E1-bfs', level='model_checking',
+      technique='model checking: explicit-state BFS with fault enumeration - every failing variant of every building call in every reached state',
+      text='Same driver. In every reached state ~40-60 failing variants are executed (duplicate names and ids at every level, invalid name, '
+           'missing site/type, unknown model, a rejected property first/middle/last among valid ones, unknown property, a new service whose '
+           'k-th interface (k=1..3) is already connected / shared-on-L2PTP / not node-owned / a stale handle / listed twice, bad port-mirror '
+           'target, bad connect, peer twice, sub-interface without vlan / duplicate name / duplicate vlan / bad property / on a shared '
+           'port, facility and switch with a rejected inner step, links with a ghost interface at each position) plus every ordinary '
+           'event that happens to raise; whenever the call raised the full model snapshot must equal the snapshot before the call.',
+      note='Exception class is not constrained. Calls that unexpectedly succeed are judged by C07, not here.'),
 ]
 _claimed = {c['property_id'] for c in CHECKS}
 NOT_APPLICABLE = [dict(property_id=p, reason='check not built yet in this revision (work in progress; model checking applies, see DESIGN.md)')
